@@ -57,6 +57,32 @@ def attribute_lists_validated(prog, chk):
         region = fr.reach([t["t"]])
         if R.assigns_result_variant(fr, region, "Err"):
             ok = True
+    # ... and it covers both kinds of tag that carry attributes: the tag whose attributes() are walked is bound from the
+    # Start as well as from the Empty variant of the event
+    kinds = set()
+    for (bb, t, c) in sites:
+        work, seen = [op_place(t["args"][0])], set()
+        while work:
+            pl = work.pop()
+            if pl is None or pl[0] in seen:
+                continue
+            seen.add(pl[0])
+            for d in fr.defs_of(pl[0]):
+                node = d[2]
+                src = None
+                if d[1] != R.TERM and node.get("k") == "ref":
+                    src = P(node["place"])
+                elif d[1] != R.TERM and node.get("k") in ("use", "cast") and op_place(node.get("op")) is not None:
+                    src = op_place(node["op"])
+                elif d[1] == R.TERM and node.get("args"):
+                    src = op_place(node["args"][0])
+                if src is None:
+                    continue
+                for z in src[1]:
+                    if str(z).startswith("as ") and str(z)[3:] in ("Start", "Empty", "End", "Text"):
+                        kinds.add(str(z)[3:])
+                work.append(src)
+    chk.ob({"Start", "Empty"} <= kinds if sites else False, "A13.attr-lists-validated", "from_reader:both-kinds", fr.where(sites[0][0], sites[0][1].get("line")) if sites else fr.where(), "start tags and empty-element tags are both scanned", f"the attribute scan covers only {sorted(kinds)} events: a malformed attribute list on the other kind of tag (e.g. <rect x=\"1\" x=\"2\"/>) is still copied to the output of a passed-through document")
     chk.ob(ok, "A13.attr-lists-validated", "from_reader", fr.where(sites[0][0], sites[0][1].get("line")) if sites else fr.where(), "the attribute list of every start / empty tag is scanned for syntax errors when the document is read", "InputList::from_reader does not scan the attribute lists of the tags it reads: a real SVG document whose start tag has a duplicate attribute or an unquoted value is accepted and copied to the output as it is - output that no XML parser accepts (svgdx-mode documents fail later, when the element is built)")
 
 
@@ -68,6 +94,7 @@ def no_double_hyphen_literals(prog, chk):
 
     n = 0
     bad = []
+    badc = []
     for bid, h in prog.hir.items():
         b = prog.bodies.get(bid)
         if b is None or b.unit != "svgdx-lib" or not isinstance(h, dict) or b.path.startswith("svgdx::cli::") or b.path.startswith("svgdx::server::"):
@@ -83,15 +110,25 @@ def no_double_hyphen_literals(prog, chk):
                     texts += [v for kind, v in hirq.decode_template(node["lit"]["bytes"]) if kind == "lit"]
                 except Exception:  # noqa: BLE001 - a byte string that is not a format template
                     pass
+            if isinstance(node["lit"].get("char"), (str, int)):
+                ch = node["lit"]["char"]
+                texts.append(ch if isinstance(ch, str) else chr(ch))
             for t in texts:
                 n += 1
                 if "--" in t:
                     bad.append((b, node.get("line"), t))
+                ctrl = [c for c in t if (ord(c) < 0x20 and c not in "\t\n\r") or ord(c) in (0xFFFE, 0xFFFF)]
+                if ctrl:
+                    badc.append((b, node.get("line"), t))
     chk.floor("A14.comment-vocabulary", n, 800, "string literal / format template piece in the library")
     for (b, line, t) in bad:
         chk.bad("A14.comment-vocabulary", f"{b.short}:{t[:24]}", b.where(0, line), f"{b.short} contains the literal {t!r}: `--` may not occur inside an XML comment, and the library builds its generated comments (version / config header, debug echo) from its own literals and format templates - an output with such a comment is rejected by an XML parser")
     if not bad:
         chk.ok("A14.comment-vocabulary", "scan", "-", f"{n} literals and template pieces scanned, none contains `--`")
+    for (b, line, t) in badc:
+        chk.bad("A14.xml-chars", f"{b.short}:{t.encode('unicode_escape').decode()[:16]}", b.where(0, line), f"{b.short} contains the literal {t!r}: a control character other than tab, newline and carriage return is not a legal XML character - if the library can put it into text or an attribute value the output is rejected by every XML parser (escaping does not help: there is no legal reference to it either)")
+    if not badc:
+        chk.ok("A14.xml-chars", "scan", "-", f"{n} literals scanned, none is / contains a control character that XML forbids")
 
 
 def no_duplicate_attrs(prog, chk):
